@@ -1,4 +1,21 @@
 import E3fpVerif.Model.Db
+import E3fpVerif.Lemmas.DbIndex
+import E3fpVerif.Lemmas.DbCols
+/-!
+# C05 — a database is a faithful, order-preserving container
+
+`Db.Inv` is the representation invariant of the database: names, property columns and rows have
+one common length, the separately maintained name index is the canonical one (the index rebuilt
+from the name list), the property keys are duplicate free, and a database without rows has no
+property columns.  `Db.new` establishes it, an accepted `Db.add` preserves it (`inv_add`), and
+`Db.subset`, `Db.asType`, `Db.fold` build databases that satisfy it.  Under the invariant,
+`db[name]` returns exactly the rows carrying the name, in insertion order (`getName_rows`).
+
+Read-only frame (remark): `Db.getIndex`, `Db.getName`, `Db.eq` return no database at all, and
+`Db.subset`, `Db.asType`, `Db.fold` return a *new* database while taking the source by value; in
+the model there is therefore no "state after" of the source to speak of — the source is unchanged
+by construction.
+-/
 namespace E3fpVerif.Props.C05
 open E3fpVerif
 
@@ -6,5 +23,458 @@ open E3fpVerif
 theorem getName_absent (db : Db) (nm : String) (h : mapLookup db.namesMap (some nm) = none) :
     db.getName nm = .ok [] := by
   simp [Db.getName, h, List.mapM_nil, pure, Except.pure]
+
+/-! ## the invariant -/
+
+/-- Representation invariant.  Besides the three clauses about lengths and the canonical index it
+carries two clauses that are needed for it to be preserved by `Db.add`: the property keys are
+duplicate free (otherwise `colSet` extends only the first of two equally named columns), and a
+database whose matrix has no rows has no property columns (otherwise the first batch, which
+dictates the expected columns of an empty database, leaves the old columns at length 0; see
+`inv_add_needs_noRows_noProps`). -/
+def _root_.E3fpVerif.Db.Inv (db : Db) : Prop :=
+  match db.array with
+  | some a =>
+    db.fpNames.length = a.length ∧
+    (∀ c ∈ db.props, c.2.length = a.length) ∧
+    db.namesMap = updateNamesMap [] db.fpNames 0 ∧
+    (db.props.map Prod.fst).Nodup ∧
+    (a = [] → db.props = [])
+  | none => db.fpNames = [] ∧ db.namesMap = [] ∧ db.props = []
+
+theorem inv_some {db : Db} {a : List Row} (h : db.array = some a) :
+    db.Inv ↔ db.fpNames.length = a.length ∧ (∀ c ∈ db.props, c.2.length = a.length) ∧
+      db.namesMap = updateNamesMap [] db.fpNames 0 ∧ (db.props.map Prod.fst).Nodup ∧
+      (a = [] → db.props = []) := by
+  unfold Db.Inv; rw [h]
+
+theorem inv_none {db : Db} (h : db.array = none) :
+    db.Inv ↔ db.fpNames = [] ∧ db.namesMap = [] ∧ db.props = [] := by
+  unfold Db.Inv; rw [h]
+
+/-- the index part of the invariant holds in both cases -/
+theorem _root_.E3fpVerif.Db.Inv.canonical {db : Db} (h : db.Inv) : db.namesMap = updateNamesMap [] db.fpNames 0 := by
+  cases ha : db.array with
+  | none =>
+    obtain ⟨h1, h2, _⟩ := (inv_none ha).1 h
+    rw [h1, h2]; rfl
+  | some a => exact ((inv_some ha).1 h).2.2.1
+
+/-- names and rows have the same number of entries -/
+theorem _root_.E3fpVerif.Db.Inv.names_length {db : Db} (h : db.Inv) : db.fpNames.length = db.fpNum := by
+  cases ha : db.array with
+  | none => simp [Db.fpNum, ha, ((inv_none ha).1 h).1]
+  | some a => simp [Db.fpNum, ha, ((inv_some ha).1 h).1]
+
+/-- every property column has one cell per row -/
+theorem _root_.E3fpVerif.Db.Inv.col_length {db : Db} (h : db.Inv) : ∀ c ∈ db.props, c.2.length = db.fpNum := by
+  cases ha : db.array with
+  | none => simp [((inv_none ha).1 h).2.2]
+  | some a => simpa [Db.fpNum, ha] using ((inv_some ha).1 h).2.1
+
+theorem _root_.E3fpVerif.Db.Inv.keys_nodup {db : Db} (h : db.Inv) : (db.props.map Prod.fst).Nodup := by
+  cases ha : db.array with
+  | none => simp [((inv_none ha).1 h).2.2]
+  | some a => exact ((inv_some ha).1 h).2.2.2.1
+
+theorem inv_new (k : Kind) (l : Int) (n : Option String) : (Db.new k l n).Inv := by
+  simp [Db.Inv, Db.new]
+
+/-! ## the incrementally maintained index -/
+
+/-- appending a batch at an offset to the canonical index equals rebuilding the index of all names
+(`foldl_zipIdx_mapAppend` in `Lemmas/DbIndex.lean` is the general statement about `List.foldl`
+over `zipIdx` with a start index and an offset) -/
+theorem updateNamesMap_append (xs ys : List (Option String)) :
+    updateNamesMap (updateNamesMap [] xs 0) ys xs.length = updateNamesMap [] (xs ++ ys) 0 :=
+  E3fpVerif.updateNamesMap_append xs ys
+
+/-! ## accepted additions -/
+
+/-- an addition is accepted exactly when the batch is non-empty and passes the three checks -/
+theorem add_ok_iff (db : Db) (fps : List FpIn) :
+    (db.add fps).2 = none ↔
+      fps ≠ [] ∧ db.badLevel fps = false ∧ db.badBits fps = false ∧ db.badProps fps = false := by
+  unfold Db.add
+  cases fps with
+  | nil => simp
+  | cons f r =>
+    by_cases c1 : db.badLevel (f :: r) = true <;> by_cases c2 : db.badBits (f :: r) = true <;>
+      by_cases c3 : db.badProps (f :: r) = true <;> simp [c1, c2, c3]
+
+theorem add_ok_eq (db : Db) (fps : List FpIn) (h : (db.add fps).2 = none) :
+    (db.add fps).1 = db.addOk fps := by
+  obtain ⟨h0, h1, h2, h3⟩ := (add_ok_iff db fps).1 h
+  have : fps.isEmpty = false := by cases fps <;> simp_all
+  simp [Db.add, this, h1, h2, h3]
+
+private theorem propsFold_nil (keys : List String) (g : String → List PVal) (n : Nat)
+    (hg : ∀ k, (g k).length = n) :
+    ((keys.foldl (fun acc k => colSet acc k (g k)) ([] : Cols)).map Prod.fst).Nodup ∧
+      ∀ c ∈ keys.foldl (fun acc k => colSet acc k (g k)) ([] : Cols), c.2.length = n :=
+  foldl_colSet_keys_forall (fun v => v.length = n) g keys (fun k _ => hg k) [] (by simp) (by simp)
+
+/-- the state after an accepted addition satisfies the invariant (no hypothesis on the batch is
+needed: the new cells are padded with a default, so the columns grow by `fps.length` anyway) -/
+theorem inv_addOk (db : Db) (fps : List FpIn) (h : db.Inv) : (db.addOk fps).Inv := by
+  obtain ⟨ft, lv, nm, arr, bits, names, nmap, props⟩ := db
+  cases arr with
+  | none =>
+    obtain ⟨h1, h2, h3⟩ := (inv_none rfl).1 h
+    simp only at h1 h2 h3
+    subst h1 h2 h3
+    rw [inv_some (a := fps.map (fun f => fpRow ft f.fp)) (by simp [Db.addOk])]
+    simp only [Db.addOk, Db.expectedProps, Db.fpNum, Nat.lt_irrefl, if_false, List.nil_append,
+      List.length_map, gt_iff_lt, colLookup, Option.getD_none]
+    have hp := propsFold_nil ((fps.head?.map (fun f => f.props.map Prod.fst)).getD [])
+      (fun k => fps.map (fun f => (propLookup f.props k).getD (.int 0))) fps.length (by simp)
+    refine ⟨trivial, hp.2, trivial, hp.1, ?_⟩
+    intro he
+    have : fps = [] := by simpa using he
+    subst this; rfl
+  | some a =>
+    obtain ⟨h1, h2, h3, h4, h5⟩ := (inv_some rfl).1 h
+    simp only at h1 h2 h3 h4 h5
+    rw [inv_some (a := a ++ fps.map (fun f => fpRow ft f.fp)) (by simp [Db.addOk])]
+    simp only [Db.addOk, Db.fpNum, List.length_append, List.length_map]
+    refine ⟨by omega, ?_, ?_, ?_, ?_⟩
+    · -- column lengths
+      by_cases ha : a.length > 0
+      · simp only [Db.expectedProps, Db.fpNum, ha, if_true]
+        rw [foldl_colSet_self _ props h4]
+        intro c hc
+        obtain ⟨c0, hc0, rfl⟩ := List.mem_map.1 hc
+        obtain ⟨v, hv1, hv2⟩ := colLookup_of_mem_keys props c0.1 (List.mem_map.2 ⟨c0, hc0, rfl⟩)
+        simp [hv1, h2 _ hv2]
+      · have ha0 : a = [] := by cases a <;> simp_all
+        subst ha0
+        have hp0 := h5 rfl
+        subst hp0
+        simp only [Db.expectedProps, Db.fpNum, List.length_nil, Nat.lt_irrefl, gt_iff_lt, if_false,
+          colLookup, Option.getD_none, List.nil_append]
+        have hp := propsFold_nil ((fps.head?.map (fun f => f.props.map Prod.fst)).getD [])
+          (fun k => fps.map (fun f => (propLookup f.props k).getD (.int 0))) fps.length (by simp)
+        simpa using hp.2
+    · -- canonical index
+      rw [h3, ← h1]; exact E3fpVerif.updateNamesMap_append names _
+    · -- duplicate-free keys
+      by_cases ha : a.length > 0
+      · simp only [Db.expectedProps, Db.fpNum, ha, if_true]
+        rw [foldl_colSet_self _ props h4]
+        simpa [List.map_map, Function.comp_def] using h4
+      · have ha0 : a = [] := by cases a <;> simp_all
+        subst ha0
+        have hp0 := h5 rfl
+        subst hp0
+        simp only [Db.expectedProps, Db.fpNum, List.length_nil, Nat.lt_irrefl, gt_iff_lt, if_false,
+          colLookup, Option.getD_none, List.nil_append]
+        exact (propsFold_nil _ (fun k => fps.map (fun f => (propLookup f.props k).getD (.int 0)))
+          fps.length (by simp)).1
+    · -- no rows, no columns
+      intro he
+      have hea : a = [] := (List.append_eq_nil_iff.1 he).1
+      have hef : fps = [] := by simpa using (List.append_eq_nil_iff.1 he).2
+      subst hea hef
+      simp [Db.expectedProps, Db.fpNum, h5 rfl]
+
+/-- **an accepted addition preserves the invariant** -/
+theorem inv_add (db : Db) (fps : List FpIn) (h : db.Inv) (hok : (db.add fps).2 = none) :
+    (db.add fps).1.Inv := by
+  rw [add_ok_eq db fps hok]; exact inv_addOk db fps h
+
+/-- whatever `add` answers, the database it leaves behind satisfies the invariant -/
+theorem inv_add_always (db : Db) (fps : List FpIn) (h : db.Inv) : (db.add fps).1.Inv := by
+  cases hok : (db.add fps).2 with
+  | none => exact inv_add db fps h hok
+  | some e =>
+    have : (db.add fps).1 = db := by
+      unfold Db.add at hok ⊢
+      by_cases c0 : fps.isEmpty = true
+      · simp [c0]
+      · by_cases c1 : db.badLevel fps = true
+        · simp [c0, c1]
+        · by_cases c2 : db.badBits fps = true
+          · simp [c0, c1, c2]
+          · by_cases c3 : db.badProps fps = true
+            · simp [c0, c1, c2, c3]
+            · simp [c0, c1, c2, c3] at hok
+    rw [this]; exact h
+
+/-- rows and names are appended in order -/
+theorem abs_add_rows (db : Db) (fps : List FpIn) (hok : (db.add fps).2 = none) :
+    (db.add fps).1.array = some (db.array.getD [] ++ fps.map (fun f => fpRow db.fpType f.fp)) ∧
+    (db.add fps).1.fpNames = db.fpNames ++ fps.map (·.name) ∧
+    (db.add fps).1.fpNum = db.fpNum + fps.length ∧
+    (db.add fps).1.fpType = db.fpType ∧ (db.add fps).1.level = db.level ∧ (db.add fps).1.name = db.name := by
+  rw [add_ok_eq db fps hok]
+  refine ⟨rfl, rfl, ?_, rfl, rfl, rfl⟩
+  cases ha : db.array <;> simp [Db.addOk, Db.fpNum, ha]
+
+/-- an old row keeps its position and content, a new row `j` sits at `db.fpNum + j` -/
+theorem abs_add_row_at (db : Db) (fps : List FpIn) (hok : (db.add fps).2 = none) (a : List Row)
+    (ha : db.array = some a) :
+    (∀ i, i < a.length → ((db.add fps).1.array.getD [])[i]? = a[i]?) ∧
+    (∀ j, j < fps.length →
+      ((db.add fps).1.array.getD [])[a.length + j]? = (fps[j]?).map (fun f => fpRow db.fpType f.fp)) := by
+  rw [(abs_add_rows db fps hok).1, ha]
+  constructor
+  · intro i hi; simp [List.getElem?_append_left hi]
+  · intro j _; simp [List.getElem?_append_right]
+
+/-- the property columns after an accepted addition to a database that has rows: every column is
+extended, in order, by the batch's values -/
+theorem abs_add_props (db : Db) (fps : List FpIn) (h : db.Inv) (hok : (db.add fps).2 = none)
+    (hpos : db.fpNum > 0) :
+    (db.add fps).1.props =
+      db.props.map (fun c => (c.1, c.2 ++ fps.map (fun f => (propLookup f.props c.1).getD (.int 0)))) := by
+  rw [add_ok_eq db fps hok]
+  simp only [Db.addOk, Db.expectedProps, hpos, if_true]
+  rw [foldl_colSet_self _ db.props h.keys_nodup]
+  apply List.map_congr_left
+  intro c hc
+  simp [colLookup_of_mem db.props c.1 c.2 h.keys_nodup hc]
+
+/-- **faithfulness towards the rows already stored**: an accepted addition changes nothing that
+`db[i]` returns for an old row `i` — content, name and property values -/
+theorem add_preserves_old_rows (db : Db) (fps : List FpIn) (h : db.Inv) (hok : (db.add fps).2 = none)
+    (i : Nat) (hi : i < db.fpNum) : (db.add fps).1.fprintAt i = db.fprintAt i := by
+  have hpos : db.fpNum > 0 := by omega
+  have hp := abs_add_props db fps h hok hpos
+  obtain ⟨ha', hn', _, ht', hl', _⟩ := abs_add_rows db fps hok
+  have hb' : (db.add fps).1.bits = db.bits := by
+    rw [add_ok_eq db fps hok]; simp [Db.addOk, Db.expectedBits, hpos]
+  cases ha : db.array with
+  | none => simp [Db.fpNum, ha] at hi
+  | some a =>
+    obtain ⟨h1, h2, _, _, _⟩ := (inv_some ha).1 h
+    have hia : i < a.length := by simpa [Db.fpNum, ha] using hi
+    unfold Db.fprintAt
+    rw [ha', ha, ht', hl', hb', hn', hp]
+    simp only [Option.getD_some, List.getElem?_append_left hia]
+    have hnm : (db.fpNames ++ fps.map (·.name))[i]? = db.fpNames[i]? :=
+      List.getElem?_append_left (by omega)
+    rw [hnm, List.filterMap_map]
+    have hpr : db.props.filterMap ((fun p : String × List PVal => (p.2[i]?).map (fun v => (p.1, v))) ∘
+          (fun c => (c.1, c.2 ++ fps.map (fun f => (propLookup f.props c.1).getD (.int 0))))) =
+        db.props.filterMap (fun p => (p.2[i]?).map (fun v => (p.1, v))) := by
+      apply filterMap_congr_mem
+      intro c hc
+      have : i < c.2.length := by rw [h2 c hc]; exact hia
+      simp [List.getElem?_append_left this]
+    rw [hpr]
+
+/-- the name of the new row `j` is the name of the `j`-th fingerprint of the batch -/
+theorem abs_add_name_at (db : Db) (fps : List FpIn) (h : db.Inv) (hok : (db.add fps).2 = none) (j : Nat) :
+    (db.add fps).1.fpNames[db.fpNum + j]? = (fps[j]?).map (·.name) := by
+  rw [(abs_add_rows db fps hok).2.1, ← h.names_length]
+  simp [List.getElem?_append_right]
+
+/-! ## the name index lists every row carrying a name, in insertion order -/
+
+/-- lookup in the canonical index: a hit is the ascending list of the positions carrying the name,
+a miss happens exactly for an absent name -/
+theorem mapLookup_updateNamesMap (names : List (Option String)) (nm : Option String) :
+    (∀ l, mapLookup (updateNamesMap [] names 0) nm = some l → l = positions names nm) ∧
+    (mapLookup (updateNamesMap [] names 0) nm = none ↔ nm ∉ names) ∧
+    (∀ i, i ∈ positions names nm ↔ names[i]? = some nm) ∧
+    StrictAsc (positions names nm) := by
+  refine ⟨?_, ?_, mem_positions names nm, positions_strictAsc names nm⟩
+  · intro l hl
+    rw [mapLookup_canonical] at hl
+    by_cases h : nm ∈ names
+    · simp [h] at hl; exact hl.symm
+    · simp [h] at hl
+  · rw [mapLookup_canonical]
+    by_cases h : nm ∈ names <;> simp [h]
+
+/-- a present name is found, with all its positions -/
+theorem mapLookup_updateNamesMap_mem (names : List (Option String)) (nm : Option String) (h : nm ∈ names) :
+    mapLookup (updateNamesMap [] names 0) nm = some (positions names nm) := by
+  rw [mapLookup_canonical]; simp [h]
+
+/-- **`db[name]` returns the fingerprints of exactly the rows carrying the name, in row order** -/
+theorem getName_rows (db : Db) (nm : String) (h : db.Inv) :
+    db.getName nm = (positions db.fpNames (some nm)).mapM db.fprintAt := by
+  unfold Db.getName
+  rw [h.canonical, mapLookup_canonical_getD]
+
+/-! ## positional access -/
+
+/-- Python's negative indexing: `db[i - n] == db[i]` for `0 ≤ i < n` -/
+theorem getIndex_neg (db : Db) (i : Int) (h0 : 0 ≤ i) (h1 : i < db.fpNum) :
+    db.getIndex (i - db.fpNum) = db.getIndex i := by
+  unfold Db.getIndex
+  have e1 : ¬ (i - (db.fpNum : Int) ≥ db.fpNum ∨ i - (db.fpNum : Int) < -(db.fpNum : Int)) := by omega
+  have e2 : ¬ (i ≥ (db.fpNum : Int) ∨ i < -(db.fpNum : Int)) := by omega
+  have e3 : i - (db.fpNum : Int) < 0 := by omega
+  have e4 : ¬ i < 0 := by omega
+  simp only [e1, e2, e3, e4, if_true, if_false]
+  congr 1
+  omega
+
+/-- in range, `db[i]` is the row `i` (or `n + i` for a negative `i`) -/
+theorem getIndex_in_range (db : Db) (i : Int) (h0 : -(db.fpNum : Int) ≤ i) (h1 : i < db.fpNum) :
+    db.getIndex i = db.fprintAt (i % (db.fpNum : Int)).toNat := by
+  unfold Db.getIndex
+  have e2 : ¬ (i ≥ (db.fpNum : Int) ∨ i < -(db.fpNum : Int)) := by omega
+  simp only [e2, if_false]
+  congr 1
+  by_cases hi : i < 0
+  · simp only [hi, if_true]
+    have : i % (db.fpNum : Int) = i + db.fpNum := by
+      rw [← Int.add_emod_right, Int.emod_eq_of_lt (by omega) (by omega)]
+    rw [this]
+  · simp only [hi, if_false]
+    rw [Int.emod_eq_of_lt (by omega) h1]
+
+/-- out of range is an `IndexError` -/
+theorem getIndex_out_of_range (db : Db) (i : Int) (h : i ≥ db.fpNum ∨ i < -(db.fpNum : Int)) :
+    db.getIndex i = .error .index := by
+  unfold Db.getIndex
+  simp only [h, if_true]
+
+/-! ## derived databases satisfy the invariant -/
+
+/-- `from_array` establishes the canonical index by construction; with as many names as rows (and no
+property columns for an empty matrix) the result satisfies the invariant -/
+theorem fromArray_inv (rows : List Row) (bits : Nat) (names : List (Option String)) (k : Kind) (level : Int)
+    (name : Option String) (props : Cols) (hl : names.length = rows.length) (he : rows = [] → props = [])
+    (h : (Db.fromArray rows bits names k level name props).2 = none) :
+    (Db.fromArray rows bits names k level name props).1.Inv := by
+  have hc := (fromArray_ok_iff rows bits names k level name props).1 h
+  rw [fromArray_ok rows bits names k level name props hc]
+  have hp := foldl_colSet_pairs_forall (fun v => v.length = names.length) props hc [] (by simp) (by simp)
+  rw [inv_some (a := rows.map (fun r => r.map (fun p => (p.1, castVal k p.2)))) rfl]
+  refine ⟨by simpa using hl, ?_, rfl, hp.1, ?_⟩
+  · intro c hc'; rw [List.length_map, ← hl]; exact hp.2 c hc'
+  · intro hr
+    have : rows = [] := by simpa using hr
+    rw [he this]; rfl
+
+theorem fromArray_inv' {rows : List Row} {bits : Nat} {names : List (Option String)} {k : Kind} {level : Int}
+    {name : Option String} {props : Cols} {d : Db}
+    (h : Db.fromArray rows bits names k level name props = (d, none))
+    (hl : names.length = rows.length) (he : rows = [] → props = []) : d.Inv := by
+  have := fromArray_inv rows bits names k level name props hl he (by rw [h])
+  rw [h] at this; exact this
+
+/-- `get_subset` builds a database satisfying the invariant (whatever the source) -/
+theorem subset_inv (db : Db) (names : List String) (newName : Option String) (d : Db)
+    (h : db.subset names newName = .ok d) : d.Inv := by
+  unfold Db.subset at h
+  split at h
+  · cases h
+  · simp only at h
+    split at h
+    · cases h
+    · rename_i hne
+      split at h
+      · rename_i d' heq
+        cases h
+        refine fromArray_inv' heq (by simp) ?_
+        intro hr
+        rw [List.map_eq_nil_iff.1 hr] at hne
+        simp at hne
+      · cases h
+
+/-- `as_type` (and `copy`) builds a database satisfying the invariant -/
+theorem asType_inv (db : Db) (k : Kind) (d : Db) (hi : db.Inv) (h : db.asType k = .ok d) : d.Inv := by
+  unfold Db.asType at h
+  split at h
+  · cases h
+  · rename_i a ha
+    obtain ⟨h1, _, _, _, h5⟩ := (inv_some ha).1 hi
+    split at h
+    · rename_i d' heq
+      cases h
+      exact fromArray_inv' heq h1 h5
+    · cases h
+
+/-- `fold` builds a database satisfying the invariant -/
+theorem fold_inv (db : Db) (bits : Nat) (k : Option Kind) (newName : Option String) (d : Db)
+    (hi : db.Inv) (h : db.fold bits k newName = .ok d) : d.Inv := by
+  unfold Db.fold at h
+  split at h
+  · cases h
+  · rename_i a ha
+    obtain ⟨h1, _, _, _, h5⟩ := (inv_some ha).1 hi
+    split at h
+    · cases h
+    · split at h
+      · cases h
+      · simp only at h
+        split at h
+        · rename_i d' heq
+          cases h
+          exact fromArray_inv' heq (by simpa using h1) (fun hr => h5 (List.map_eq_nil_iff.1 hr))
+        · cases h
+
+/-! ## non-vacuity -/
+
+section Examples
+
+private def f1 : Fp := ⟨.bit, 8, 0, [1, 2], []⟩
+private def f2 : Fp := ⟨.bit, 8, 0, [3], []⟩
+private def db0 : Db := Db.new .bit 0 none
+private def db1 : Db := db0.addOk [⟨f1, some "a", [("w", .int 1)]⟩, ⟨f2, some "b", [("w", .int 2)]⟩]
+private def batch : List FpIn := [⟨f2, some "a", [("w", .int 3)]⟩]
+
+/-- `inv_add`, `abs_add_rows`, `abs_add_props`: the hypotheses are satisfiable, and the accepted
+addition of a second fingerprint named "a" appends its row -/
+example : db1.Inv ∧ (db1.add batch).2 = none ∧ db1.fpNum > 0 ∧ (db1.add batch).1.Inv ∧
+    (db1.add batch).1.fpNames = [some "a", some "b", some "a"] ∧
+    (db1.add batch).1.props = [("w", [.int 1, .int 2, .int 3])] := by
+  have h1 : db1.Inv := inv_addOk db0 _ (inv_new _ _ _)
+  have h2 : (db1.add batch).2 = none := by decide
+  exact ⟨h1, h2, by decide, inv_add db1 batch h1 h2, by decide, by decide⟩
+
+/-- `mapLookup_updateNamesMap`, `getName_rows`: a repeated name yields both rows, in order -/
+example : mapLookup (db1.add batch).1.namesMap (some "a") = some [0, 2] ∧
+    positions (db1.add batch).1.fpNames (some "a") = [0, 2] ∧
+    mapLookup (db1.add batch).1.namesMap (some "z") = none := by decide
+
+private def errOf {α : Type} : Except Err α → Option Err
+  | .error e => some e
+  | .ok _ => none
+
+/-- `getName_rows`, `add_preserves_old_rows`: `db["a"]` returns the two fingerprints named "a", in
+row order, with their property values; row 0 reads the same before and after the addition -/
+example : ((db1.add batch).1.getName "a").toOption.map (·.map (fun f => (f.fp.idx, f.name, f.props))) =
+      some [([1, 2], some "a", [("w", .int 1)]), ([3], some "a", [("w", .int 3)])] ∧
+    ((db1.add batch).1.fprintAt 0).toOption = (db1.fprintAt 0).toOption := by decide
+
+/-- `getIndex_neg`, `getIndex_out_of_range`: `db[-1]` is the last row, `db[2]` and `db[-3]` raise -/
+example : db1.fpNum = 2 ∧ db1.getIndex (1 - (db1.fpNum : Int)) = db1.getIndex 1 ∧
+    (db1.getIndex (-1)).toOption = (db1.getIndex 1).toOption ∧
+    errOf (db1.getIndex 2) = some .index ∧ errOf (db1.getIndex (-3)) = some .index ∧
+    (db1.getIndex 1).toOption.map (·.name) = some (some "b") :=
+  ⟨by decide, getIndex_neg db1 1 (by decide) (by decide), by decide, by decide, by decide, by decide⟩
+
+/-- `subset_inv`, `asType_inv`: the operations succeed on the sample database -/
+example : (db1.subset ["b"] none).toOption.isSome ∧ (db1.asType .count).toOption.isSome := by decide
+
+/-- `fold_inv`: folding the sample database from 8 to 4 bits succeeds -/
+example : ∃ d, db1.fold 4 none none = .ok d := by
+  have hp : isPow2Multiple 8 4 = true := by
+    unfold isPow2Multiple; simp; unfold isPow2Multiple; simp
+  have hb : db1.bits = 8 := by decide
+  obtain ⟨a, ha⟩ : ∃ a, db1.array = some a := ⟨_, rfl⟩
+  have hl : ∀ c ∈ db1.props, c.2.length = db1.fpNames.length := by decide
+  unfold Db.fold
+  rw [ha]
+  simp only [hb, hp]
+  rw [fromArray_ok _ _ _ _ _ _ _ hl]
+  exact ⟨_, rfl⟩
+
+/-- The clause "no rows, no property columns" of the invariant cannot be dropped: a database with
+an empty matrix and a zero-length column `"k"` satisfies all the other clauses, accepts a batch
+that does not provide `"k"` (an empty database takes its expected columns from the batch), and is
+left with a column shorter than its matrix. -/
+theorem inv_add_needs_noRows_noProps :
+    let db : Db := { Db.new .bit 0 none with array := some [], props := [("k", [])] }
+    let fps : List FpIn := [⟨f1, some "a", []⟩]
+    (db.add fps).2 = none ∧ (db.add fps).1.fpNum = 1 ∧ (db.add fps).1.props = [("k", [])] := by decide
+
+end Examples
 
 end E3fpVerif.Props.C05
